@@ -448,20 +448,37 @@ def check_where_nesting(ctx: Ctx, rule: str, f):
         else:
             ctx.undecided(rule, key, "the where-nest is not built by the known loop over zip(conds, exprs); pairing of branches and conditions is not judged", f.where())
         return
-    if loops:
-        l = loops[0]
-        c, e = [x.id for x in l.target.elts]
-        app = [fstring_skeleton(s.value.args[0]) for s in l.body if isinstance(s, ast.Expr) and isinstance(s.value, ast.Call) and norm(s.value.func) == "result.append"]
-        want = ["numpy.where(", "{" + c + "}", ", ", "{" + e + "}", ", "]
-        ok = app == want
-        why = f"loop appends {app}"
-        src = norm(f.node)
-        ok = ok and "result = result[:-6]" in src and f"result.append(f', {{{e}}}')" in src and "result.append(')' * (len(conds) - 1))" in src and f"if {c} == 'True':" in src
-        if not ok:
-            why += "; tail handling (drop the last `numpy.where(True, e, ` and close len(conds)-1 parentheses) differs"
-        calls = [x for x in ast.walk(f.node) if isinstance(x, ast.Call) and (dotted(x.func) or "") == "_print_Piecewise"]
-        ok = ok and bool(calls) and [norm(a) for a in calls[0].args] == ["self", "expr"]
-    ctx.check(ok, rule, key, "where(c1, e1, where(c2, e2, default))", f"numpy printer _print_Piecewise: {why}; branches would be paired with the wrong conditions or the default lost", f.where())
+    l = loops[0]
+    c, e = [x.id for x in l.target.elts]
+    app = [fstring_skeleton(s_.value.args[0]) for s_ in l.body if isinstance(s_, ast.Expr) and isinstance(s_.value, ast.Call) and norm(s_.value.func).endswith(".append") and s_.value.args]
+    want = ["numpy.where(", "{" + c + "}", ", ", "{" + e + "}", ", "]
+    # the statements of the generic branch: the block that holds the loop (the Assignment branch has its own tail)
+    block = None
+    for n in ast.walk(f.node):
+        for fld in ("body", "orelse", "finalbody"):
+            stmts = getattr(n, fld, None)
+            if isinstance(stmts, list) and any(x is l for x in stmts):
+                block = stmts
+    scope = ast.Module(body=list(block or f.node.body), type_ignores=[])
+    # each part of the idiom: 'ok', 'bad' (the construct is there and says something else) or 'absent' (not judged)
+    parts = {}
+    parts["pieces"] = "ok" if app == want else ("bad" if len(app) == len(want) else "absent")
+    slices = [n for n in ast.walk(scope) if isinstance(n, ast.Subscript) and isinstance(n.slice, ast.Slice) and n.slice.lower is None and isinstance(n.slice.upper, ast.UnaryOp) and isinstance(n.slice.upper.operand, ast.Constant)]
+    parts["drop-last-where"] = "absent" if not slices else ("ok" if all(norm(n.slice.upper) == "-6" for n in slices) else "bad")
+    closes = [n for n in ast.walk(scope) if isinstance(n, ast.BinOp) and isinstance(n.op, ast.Mult) and (const_str(n.left) == ")" or const_str(n.right) == ")")]
+    parts["closing"] = "absent" if not closes else ("ok" if all(norm(n.right if const_str(n.left) == ")" else n.left) == "len(conds) - 1" for n in closes) else "bad")
+    tests = [n for n in ast.walk(scope) if isinstance(n, ast.Compare) and len(n.ops) == 1 and isinstance(n.left, ast.Name) and n.left.id == c and isinstance(n.comparators[0], ast.Constant)]
+    parts["default-test"] = "absent" if not tests else ("ok" if all(n.comparators[0].value == "True" and isinstance(n.ops[0], (ast.Eq, ast.NotEq)) for n in tests) else "bad")
+    calls = [x for x in ast.walk(f.node) if isinstance(x, ast.Call) and (dotted(x.func) or "") == "_print_Piecewise"]
+    parts["shared-helper"] = "absent" if not calls else ("ok" if [norm(a) for a in calls[0].args] == ["self", "expr"] else "bad")
+    bad = sorted(k for k, v_ in parts.items() if v_ == "bad")
+    absent = sorted(k for k, v_ in parts.items() if v_ == "absent")
+    if bad:
+        ctx.fail(rule, key, f"numpy printer _print_Piecewise: {', '.join(bad)} differ from where(c1, e1, where(c2, e2, default)) (loop appends {app}); branches would be paired with the wrong conditions or the default lost", f.where())
+    elif absent:
+        ctx.undecided(rule, key, f"numpy printer _print_Piecewise: the parts {absent} of the known construction are written in another way; the nesting is not judged", f.where())
+    else:
+        ctx.ok(rule, key, "where(c1, e1, where(c2, e2, default))", f.where())
 
 
 def assembly(ctx: Ctx, rule: str):
